@@ -24,7 +24,7 @@ ASSUMPTIONS = [
     "metamorphic: both sides run the same assembler; vlib/ref6809.py is used only to align instructions for the shift relation",
     "programs whose addresses would cross $100 or leave 0..65535 under the shift are re-drawn with a smaller D",
 ]
-HEALTH = {"T:shift": 0.1, "T:rename": 0.1, "T:layout": 0.1, "T:suffix": 0.1, "abs_and_rel": 0.2}
+HEALTH = {"T:shift": 0.04, "T:rename": 0.04, "T:layout": 0.04, "T:suffix": 0.04, "abs_and_rel": 0.08}
 EXHAUSTIVE = {}
 
 _RESERVED = set(R.MNEMONICS) | {"A", "B", "D", "X", "Y", "U", "S", "CC", "DP", "PC", "PCR", "END", "ORG", "EQU", "SET", "RMB",
